@@ -338,7 +338,7 @@ def main():
     if only:
         models = []
         P = dict(P, drivers=[d for d in P.get("drivers", []) if d["name"] in only], min_nontrivial=0)
-    with ThreadPoolExecutor(max_workers=8) as ex:
+    with ThreadPoolExecutor(max_workers=10) as ex:
         futs = [ex.submit(model_stage, pid, m, tier, seed) for m in models]
         results = [f.result() for f in futs]
     for m, ms in zip(models, results):
@@ -356,7 +356,7 @@ def main():
     vprops = P.get("validate", [pid])
     all_fails = []
     t0 = time.time()
-    with ThreadPoolExecutor(max_workers=6) as ex:
+    with ThreadPoolExecutor(max_workers=10) as ex:
         futs = [ex.submit(validate, tr, vprops, k) for k, tr in enumerate(traces)]
         for tr, fu in zip(traces, futs):
             fails, dt = fu.result()
